@@ -33,7 +33,7 @@ func init() {
 		Count: func(tier string) int {
 			n := enumCount(len(tokenAlphabet), c06Token(tier))
 			if tier == "thorough" {
-				return n + 300000
+				return n + 40000
 			}
 			return n + 1500
 		},
